@@ -189,6 +189,8 @@ def gen_source(rng, kind):
                 if rng.random() < 0.1:
                     rng.shuffle(est)
                 st["est"] = est
+                if rng.random() < 0.3:  # the parser attaches the LOCAL_GEODETIC_DATUM of FILE/COMMENT to every estimate
+                    st["frame"] = rng.choice(["IGS14", "IGb14", "ITRF2014"])
                 if r < 0.12:
                     st["epochs"] = None  # estimates without epochs: empty history
                 elif r < 0.16:
@@ -359,7 +361,8 @@ def build_real(kind, source):
                 d["solution_estimate"] = [
                     {"param_idx": t, "param_name": PNAMES[p], "site_code": site, "point_code": "A", "soln": str(sn),
                      "ref_epoch": datetime(2010, 1, 1), "unit": "m", "constraint": "2", "estimate": float(t),
-                     "estimate_std": 0.001, "_tag": t} for sn, p, t in st["est"]]
+                     "estimate_std": 0.001, "_tag": t, **({"ref_frame": st["frame"]} if st.get("frame") else {})}
+                    for sn, p, t in st["est"]]
             data[st["key"]] = d
         else:
             data[st["key"]] = {
